@@ -18,6 +18,7 @@
 #ifndef __GIVARO_modular_log16_H
 #define __GIVARO_modular_log16_H
 
+#include <atomic>
 #include "givaro/givinteger.h"
 #include "givaro/givbasictype.h"
 #include "givaro/giverror.h"
@@ -202,7 +203,7 @@ namespace Givaro
         Power_t* _tab_subone;   // table for -(ei+1)
         Power_t* _tab_mone;   // table for ei+1
         Power_t* _tab_pone;   // table for -(ei+1)
-        int* numRefs;
+        std::atomic<int>* numRefs;   // shared by the copies, possibly in several threads
 
     public:
         // ----- Constantes
